@@ -12,6 +12,7 @@ INVARIANT LawGroups
 INVARIANT LawDecider
 INVARIANT LawTraj
 INVARIANT LawMoved
+INVARIANT LawFile
 INVARIANT LawMovedOri
 PROPERTY Monotone
 PROPERTY TurnInv
